@@ -18,9 +18,9 @@
 (* mode "lin": every memory call is logged, so the processing order is     *)
 (*   known and validation is linear.  A call is matched with the head of   *)
 (*   inflight[p] of a port whose request it serves (Process(p)).  A call   *)
-(*   that serves no accepted, unprocessed request (`phantom`: the stream   *)
-(*   memory evaluates a request that is offered but not yet accepted) is   *)
-(*   admitted iff it leaves the image unchanged; otherwise the clause      *)
+(*   that serves no accepted, unprocessed request (`phantom`: e.g. a       *)
+(*   request that is offered but not yet accepted, or one applied again)   *)
+(*   is admitted iff it leaves the image unchanged; otherwise the clause   *)
 (*   applied-without-accepted-request fires (the harness then asks mode    *)
 (*   "inf" whether the run is observably sequential).  With tol = "all"    *)
 (*   (tol = "wr": writes only) such a call is applied to the image and     *)
